@@ -64,7 +64,7 @@ def run(ctx: common.Ctx):
         "programs: int64 vectors, elementwise arithmetic; 1..4 ranks, 0..6 messages (harness/gen/comm.py)",
     ]
     ctx.lean_obligations("PtProofs.C08", THEOREMS)
-    nsmall, nbig = (1200, 1800) if ctx.thorough else (160, 160)
+    nsmall, nbig = (6000, 8000) if ctx.thorough else (300, 300)
     tasks = []
     for i in range(nsmall):
         tasks.append({"seed": ctx.seed, "index": i, "profile": "small", "max_runs": 4000 if ctx.thorough else 500,
@@ -84,7 +84,7 @@ def run(ctx: common.Ctx):
     sched = {"runs": 0, "complete": 0, "pruned": 0, "exhaustive_programs": 0, "random_programs": 0,
              "max_options": 0, "max_depth": 0, "budget_exhausted_programs": 0}
     queries, qmeta = [], []
-    n_exec_cases = n_exec_dis = 0
+    n_exec_cases = n_exec_dis = n_exec_nontriv = n_prog_comm = 0
     for t, res in zip(tasks, results):
         if res.get("timeout"):
             raise common.LeanError(f"C08: program {t} timed out inside fakempi")
@@ -123,6 +123,9 @@ def run(ctx: common.Ctx):
         else:
             sched["random_programs"] += 1
         n_exec_cases += ex["complete"]
+        if st["ncomm"] > 0:
+            n_exec_nontriv += ex["complete"]
+            n_prog_comm += 1
         for f in ex["failures"]:
             n_exec_dis += 1
             sig = exec_signature(f["what"], res["patterns"])
@@ -143,12 +146,8 @@ def run(ctx: common.Ctx):
         if len(ctx.samples) < 8:
             ctx.sample({"program": replay_base["program"], "stats": st, "schedules": {k: ex[k] for k in
                         ("mode", "runs", "complete", "pruned", "exhaustive")}})
-    ctx.note_batch("real-executor-vs-global-reference", n_exec_cases, n_exec_dis,
-                   exhaustive=False, programs=len(tasks),
-                   how="every complete schedule of every program: all ranks' outputs == reference; no deadlock, "
-                       "spin, exception, leftover message")
     answers = common.driver_query_parallel(queries)
-    n_wf = n_wf_dis = n_tr = n_tr_dis = 0
+    n_wf = n_wf_dis = n_tr = n_tr_dis = n_tr_nontriv = 0
     for (kind, t, res, failed), a in zip(qmeta, answers):
         prog = {"seed": t["seed"], "index": t["index"], "profile": t["profile"]}
         if kind == "wf":
@@ -160,21 +159,31 @@ def run(ctx: common.Ctx):
                     ctx.broken.append(f"correspondence:checkWFexec-rejects-real-partition:{a}:{prog}")
         else:
             n_tr += 1
+            n_tr_nontriv += res["stats"]["ncomm"] > 0
             if not a.startswith("ok ok"):
                 n_tr_dis += 1
                 if not failed:
                     why = a.split(" ", 3)[-1] if a.startswith("ok bad") else a
                     ctx.broken.append(f"correspondence:real-trace-is-not-a-Step-path:{why.split(' ')[0]}:{prog}")
-    ctx.note_batch("checkWFexec-on-real-partitions", n_wf, n_wf_dis, exhaustive=False,
+    ctx.note_batch("real-executions", n_exec_cases, n_exec_dis + n_tr_dis, exhaustive=False,
+                   nontrivial=n_exec_nontriv, programs=len(tasks),
+                   how="every complete schedule of every program runs the real executor on fakempi: all ranks' "
+                       "outputs == global reference, no deadlock / spin / exception / leftover message; its event "
+                       "trace (exec / wait with executor snapshot / choice point with available set / deliver / "
+                       "finish / terminal) is replayed in the Lean transition system (distinct traces only)",
+                   failing_schedules=n_exec_dis, traces_replayed_in_lean=n_tr, traces_not_step_paths=n_tr_dis,
+                   traces_nontrivial=n_tr_nontriv)
+    ctx.note_batch("real-partitions-checkWFexec", n_wf, n_wf_dis, exhaustive=False, nontrivial=n_prog_comm,
                    how="ptdriver runs the verified checker on the union of all ranks' real partitions")
-    ctx.note_batch("real-traces-are-Step-paths", n_tr, n_tr_dis, exhaustive=False,
-                   how="distinct event traces (exec / wait with executor snapshot / choice point with available "
-                       "set / deliver / finish / terminal) replayed in the Lean transition system")
-    ctx.coverage["programs"] = dict(sorted(dist.items()))
+    ctx.coverage["programs"] = len(tasks)
+    ctx.coverage["program_distribution"] = dict(sorted(dist.items()))
     ctx.coverage["topologies"] = dict(sorted(topo.items()))
     ctx.coverage["schedules"] = sched
-    ctx.coverage["rule"] = ("a case = one complete real execution under one schedule (batch 1), one real "
-                            "partition (batch 2), one distinct real event trace replayed in Lean (batch 3)")
+    ctx.coverage["traces_validated_against_impl"] = n_tr
+    ctx.coverage["rule"] = ("a case = one complete real execution under one schedule (batch 1: schedules of one "
+                            "program are distinct choice lists of the DFS, or seeded draws), one real partition "
+                            "(batch 2), one distinct real event trace replayed in Lean (batch 3, de-duplicated "
+                            "per program); non-trivial = the program has at least one message")
     ctx.broken = sorted(set(ctx.broken))[:30]
 
 
